@@ -8,15 +8,15 @@ CONSTANTS MinReq = 2
  Slots = {1}
  ExT = 1
  SlotLen = 0
- DLOff = 2
+ DLOff = 50
  LocalProtocols <- LP
  LocalProposals <- LP
  V2Versions = {"v2", "v3"}
  DupPolicy = "first"
- MaxTime = 2
+ MaxTime = 1
  MaxInject = 1
  Malformed = FALSE
- Lossy = TRUE
- WithDecide = TRUE
+ Lossy = FALSE
+ WithDecide = FALSE
 INVARIANTS Safety NoAbort FullExchangeAgree
 CHECK_DEADLOCK FALSE
